@@ -84,3 +84,28 @@ theorem new_ok_iff_general (c : Cfg) (ns : Int) (hfit : localMs ns ≤ u64Max) (
     exact ⟨⟨h1, h2, hfit, h3, h4⟩, rfl⟩
 
 end Woodpile.VouchedTime
+
+namespace Woodpile.VouchedTime
+
+/-- The window check never reports a bad voucher. -/
+theorem checkVouchedTime_ne_badVoucher (c : Cfg) (ms : Int) (base : UInt64) :
+    checkVouchedTime c ms base ≠ .err .badVoucher := by
+  unfold checkVouchedTime
+  by_cases h0 : ms < 0
+  · simp [h0]
+  by_cases h1 : ms > u64Max
+  · simp [h0, h1]
+  simp only [h0, h1, if_false]
+  split
+  · simp
+  · split <;> simp
+
+/-- `check` reports a bad voucher exactly when the raffle check fails. -/
+theorem check_badVoucher_iff (c : Cfg) (ns : Int) (base v : UInt64) :
+    check c ns base v = .err .badVoucher ↔ Raffle.check c.params base v = false := by
+  unfold check
+  cases h : Raffle.check c.params base v
+  · simp
+  · simpa using checkVouchedTime_ne_badVoucher c (localMs ns) base
+
+end Woodpile.VouchedTime
